@@ -7,6 +7,22 @@ def main():
     scratch = tempfile.mkdtemp(prefix='verif-replay-')
     try:
         h = vf.build_harness(scratch)
+        if doc.get('concurrent'):
+            c = doc['concurrent']
+            ev, tries = vf.reobserve_conc(h, c, c.get('tier', 'quick'), c.get('seed', 1), scratch, doc['demand'], attempts=5)
+            if ev is not None:
+                print('observed again (concurrent run %d):' % tries, json.dumps(ev))
+                print('REPRODUCED property=%s failed demands of the specification: %s' % (doc.get('property'), doc['demand']))
+                return 1
+            print('not reproduced: demand %s held in %d fresh concurrent runs' % (doc['demand'], tries))
+            return 0
+        if doc.get('demand', '').endswith('.crash'):
+            again, how = vf.replay_crash(h, doc['events'], scratch)
+            if again:
+                print('REPRODUCED property=%s the process died inside the call again: %s' % (doc.get('property'), how))
+                return 1
+            print('not reproduced: the call returned')
+            return 0
         new, codes = vf.replay_events(h, doc['events'], scratch)
         print('re-executed event:', json.dumps(new[-1]))
         if codes:
